@@ -7,7 +7,7 @@
 (* tables used for speed are derived from "times x" and TLC checks that    *)
 (* they agree with MulDef (see GF2m_check.cfg).                            *)
 (***************************************************************************)
-EXTENDS Naturals, Sequences, FiniteSets, SequencesExt, Bitwise
+EXTENDS Naturals, Sequences, FiniteSets, SequencesExt, Bitwise, TLC
 
 Poly(m) == IF m = 4 THEN 19 ELSE 285          \* 0b10011, 0b100011101 (0x11D)
 Order(m) == 2 ^ m                             \* number of elements
@@ -61,9 +61,9 @@ IsGeneratorRow(g, k, esi, m) ==
 (* of the non-zero positions.  Source j carries 1 at position j, so the    *)
 (* symbol *is* the generator row; positions >= k must stay zero.           *)
 (***************************************************************************)
-RowFromPairs(v, k) ==
-    [ j \in 1 .. k |-> LET hit == { i \in DOMAIN v : v[i][1] = j - 1 }
-                       IN  IF hit = {} THEN 0 ELSE v[CHOOSE i \in hit : TRUE][2] ]
+RowFromPairs(v, k) ==       \* TLCEval: evaluate once (TLC does not memoise applications of a function constructor)
+    TLCEval([ j \in 1 .. k |-> LET hit == { i \in DOMAIN v : v[i][1] = j - 1 }
+                               IN  IF hit = {} THEN 0 ELSE v[CHOOSE i \in hit : TRUE][2] ])
 
 RsRowOK(codec, m0, k, esi, v, len) ==
     LET m == IF codec = 1 THEN 8 ELSE m0
